@@ -336,6 +336,31 @@ fn scenario_pairs() -> Vec<(&'static str, &'static str, &'static str)> {
     ]
 }
 
+/// The character data of every <text> element (white space runs as one blank): white space between the children
+/// of a <text> separates words, so it is compared there although it is layout everywhere else.
+fn text_contents(evs: &[Ev]) -> Vec<String> {
+    let (mut out, mut depth, mut cur) = (Vec::new(), 0usize, String::new());
+    for e in evs {
+        match e {
+            Ev::Start(n, _) if depth > 0 || n == "text" => {
+                depth += 1;
+            }
+            Ev::End(_) if depth > 0 => {
+                depth -= 1;
+                if depth == 0 {
+                    out.push(cur.split_whitespace().collect::<Vec<_>>().join(" "));
+                    cur.clear();
+                } else {
+                    cur.push('\u{1}'); // (an element boundary: "a</tspan><tspan>b" is one word, "a</tspan> <tspan>b" two)
+                }
+            }
+            Ev::Text(t) | Ev::CData(t) if depth > 0 => cur.push_str(t),
+            _ => {}
+        }
+    }
+    out.iter().map(|t| t.replace(" \u{1}", " ").replace("\u{1} ", " ").replace('\u{1}', "")).collect()
+}
+
 fn check_pair(name: &str, a: &str, b: &str) -> CaseResult {
     let cfg = Cfg::plain();
     let (oa, ob) = (run_str(a, &cfg), run_str(b, &cfg));
@@ -348,8 +373,11 @@ fn check_pair(name: &str, a: &str, b: &str) -> CaseResult {
         (Outcome::Panic(x), _) | (_, Outcome::Panic(x)) => mk("panic", x.clone()),
         (Outcome::Ok(x), Outcome::Ok(y)) => match (xmlref::parse(x, Mode::Document), xmlref::parse(y, Mode::Document)) {
             (Ok(ex), Ok(ey)) => {
+                let (tx, ty) = (text_contents(&ex), text_contents(&ey));
                 let (sx, sy) = (significant(ex), significant(ey));
-                if sx != sy {
+                if sx == sy && tx != ty {
+                    mk("text-differs-from-unrolling", format!("program:  {a}\nunrolled: {b}\ncharacter data of the <text> elements: {tx:?} against {ty:?}"));
+                } else if sx != sy {
                     let at = sx.iter().zip(sy.iter()).position(|(p, q)| p != q).unwrap_or(sx.len().min(sy.len()));
                     mk("differs-from-unrolling", format!("program:  {a}\nunrolled: {b}\nfirst differing event #{at}:\n  program:  {:?}\n  unrolled: {:?}", sx.get(at), sy.get(at)));
                 }
